@@ -25,7 +25,7 @@ EXTRA = ["x.", "x.mmm.", "..mmm", "...", "x..mmm", " .mmm", "x. mmm", "x.mmm ", 
          "日本 語.transpiled.mmm", "ü.MMM", "y.mmm", "z.mmm", "main.ms", "main.mmm", "x.mmm.mmm", "-r.mmm", "*.mmm"]
 KINDS = ["file", "dir", "link-file", "link-dir", "dangling"]
 KIND_COQ = {"file": "KFile", "dir": "KDir", "link-file": "KLinkFile", "link-dir": "KLinkDir", "dangling": "KDangling"}
-DIRNAMES = ["proj", "my dir", "build.mmm", "été", "a.b"]
+DIRNAMES = ["proj", "my dir", "build.mmm", "été", "a.b", "tools.ms", "x.MS", "src.mmm.ms"]     # the DIRECTORY may be named like a source or bytecode file
 INVOKE = ["abs", "rel", "rel-slash", "dot", "default", "dotslash"]
 ANSI = re.compile(r"\x1b\[[0-9;]*m")
 
